@@ -33,7 +33,11 @@ def build_jobs(chk, q):
     # B: time-limited searches (movetime / clocks), also with newgame in between
     for i, p in enumerate(pool[:40 if q else 600]):
         lim = [{"movetime": 1}, {"movetime": 8}, {"wtime": 40, "btime": 40}, {"wtime": 300, "btime": 300, "winc": 100, "binc": 100},
-               {"wtime": 20, "btime": 20, "mtg": 1}, {"movetime": 0}][i % 6]
+               {"wtime": 20, "btime": 20, "mtg": 1}, {"movetime": 0},
+               # increment larger than the clock, an empty clock, one move to go with an increment, one millisecond
+               {"wtime": 40, "btime": 40, "winc": 1000, "binc": 1000}, {"wtime": 0, "btime": 0, "winc": 30, "binc": 30},
+               {"wtime": 30, "btime": 30, "winc": 200, "binc": 200, "mtg": 1}, {"wtime": 1, "btime": 1},
+               {"wtime": 60, "btime": 60, "mtg": 40}, {"wtime": 25}, {"btime": 25}][i % 13]
         jobs.append({"hash": 1, "tag": "timed", "searches": [dict(pos=p, **lim), dict(pos=pool[(i + 7) % len(pool)], depth=3, newgame=(i % 2 == 0))]})
     # C: more than 256 searches on one table (8-bit generation counter), then a real search
     for rep in range(1 if q else 4):
@@ -44,6 +48,12 @@ def build_jobs(chk, q):
     for i, p in enumerate(searches.explosive_positions()):
         lim = [{"movetime": 0}, {"movetime": 1}, {"wtime": 1, "btime": 1}, {"depth": 1}][i % 4]
         jobs.append({"hash": 1, "tag": "explosive", "searches": [dict(pos=p, **lim), {"pos": roots[i % len(roots)], "depth": 3}]})
+    # F: positions in which every line is a draw at once (dead material): a search without any limit runs through the whole
+    # depth range (255 iterations) within milliseconds and must come back with a move by itself
+    for i, f in enumerate(["8/8/8/4k3/8/8/8/4K3 w - - 0 1", "8/8/8/4k3/8/8/8/4K3 b - - 0 1", "8/8/3k4/8/8/3BK3/8/8 w - - 10 40",
+                           "8/8/3k4/8/8/3NK3/8/8 b - - 0 1", "7k/8/8/8/8/8/8/K7 w - - 0 1"]):
+        jobs.append({"hash": 1, "tag": "whole-depth-range", "searches": [{"pos": searches.fen2pos(f)}, {"pos": searches.fen2pos(f), "depth": 255},
+                                                                          {"pos": roots[i % len(roots)], "depth": 2}]})
     # D: scores that jump through the aspiration window (mate found at depth >= 5)
     for f in searches.EXTRA_FENS[:4]:
         jobs.append({"hash": 1, "tag": "score-jump", "searches": [{"pos": searches.fen2pos(f), "depth": d} for d in ((6, 7) if q else (6, 7, 9))]})
